@@ -1250,11 +1250,11 @@ def main():
     quick = chk.tier == "quick"
     sc = chk.args.scale
     plan = []      # (kind, chunks, per chunk)
-    plan.append(("conv", 16 if quick else 64, int((3000 if quick else 24000) * sc)))
-    plan.append(("sconv", 8 if quick else 32, int((600 if quick else 6000) * sc)))
-    plan.append(("ab", 16 if quick else 64, int((24 if quick else 600) * sc)))
-    plan.append(("ls", 16 if quick else 64, int((60 if quick else 1500) * sc)))
-    plan.append(("sapi", 16 if quick else 64, int((24 if quick else 400) * sc)))
+    plan.append(("conv", 16 if quick else 64, int((3000 if quick else 10000) * sc)))
+    plan.append(("sconv", 8 if quick else 32, int((600 if quick else 3000) * sc)))
+    plan.append(("ab", 16 if quick else 64, int((24 if quick else 200) * sc)))
+    plan.append(("ls", 16 if quick else 64, int((60 if quick else 500) * sc)))
+    plan.append(("sapi", 16 if quick else 64, int((24 if quick else 160) * sc)))
     payloads = []
     for kind, nch, per in plan:
         if ONLY and kind not in ONLY.split(","):
